@@ -743,6 +743,27 @@ func (ex *Exec) checkInvariants(f *frame, st *State, li *loopInfo, at *ssa.Basic
 	if ls == nil {
 		return
 	}
+	if phase == "step" {
+		// at a back edge the loop-carried variables have their NEXT values
+		saved := map[*ssa.Phi]Term{}
+		for _, ins := range li.header.Instrs {
+			phi, ok := ins.(*ssa.Phi)
+			if !ok {
+				break
+			}
+			for i, p := range li.header.Preds {
+				if p == at {
+					saved[phi] = f.vals[phi]
+					f.vals[phi] = f.val(phi.Edges[i])
+				}
+			}
+		}
+		defer func() {
+			for phi, v := range saved {
+				f.vals[phi] = v
+			}
+		}()
+	}
 	for _, inv := range ls.Invariants {
 		genv := ex.frameEnv(f, st, f.entry)
 		genv.goal = true
